@@ -570,6 +570,10 @@ class PrecipitateModel (PrecipitateBase):
             xEqAlpha = np.zeros(self.numberOfElements)
             xEqBeta = np.zeros(self.numberOfElements)
             growthRate = np.zeros(self.PBM[p].bins + 1)
+            #The interfacial compositions are used by the mass balance, so make sure they exist if this is the first calculation
+            if self.PSDXalpha[p] is None:
+                self.PSDXalpha[p] = np.zeros((self.PBM[p].bins + 1, self.numberOfElements))
+                self.PSDXbeta[p] = np.zeros((self.PBM[p].bins + 1, self.numberOfElements))
             return growthRate, xEqAlpha, xEqBeta
 
         growth_result = self.therm.getGrowthAndInterfacialComposition(xComp, T, dGs[p] * self.precipitateParameters[p].volume.Vm, self.PBM[p].PSDbounds, self.particleGibbs(phase=self.precipitateParameters[p].phase), precPhase=self.precipitateParameters[p].phase, removeCache=self.removeCache, searchDir = self._precBetaTemp[p])
